@@ -19,6 +19,10 @@
            reconstruction), `cmds` (per-command updates) and `cur` (`current_updates`).
      fper  an open bare `LinearFactPerspective` (`get_fact_perspective`, used for braids).
      cps   checkpoints taken on `per` (with ghost copies of what was visible then).
+   Ghost `disc` (in `per`, copied into the segment it is written to): the updates discarded by
+   reverts so far.  It has no counterpart in the code; it only keeps states with different
+   discarded writes apart, so that the shortest witness of every state reached after a revert
+   contains the revert that discarded them (history coverage for "discarded writes resurface").
    One action per public call: `new_perspective`, `insert`, `delete`, `add_command`,
    `checkpoint`, `revert`, `new_storage`, `write`, `get_linear_perspective`,
    `get_fact_perspective`, `write_facts`.  `write_facts_with_prior` compacts the chain into a
@@ -153,7 +157,7 @@ FactPerspAt(s, i) ==
   THEN NewFp(PIdx(g.facts))
   ELSE FpApplyCmds(NewFp(IF g.pf = 0 THEN PNone ELSE PIdx(g.pf)), SubSeq(g.cmds, 1, i))
 
-Closed == [open |-> FALSE, parent |-> NoLoc, fp |-> NewFp(PNone), cmds |-> <<>>, cur |-> <<>>]
+Closed == [open |-> FALSE, parent |-> NoLoc, fp |-> NewFp(PNone), cmds |-> <<>>, cur |-> <<>>, disc |-> {}]
 FClosed == [open |-> FALSE, loc |-> NoLoc, fp |-> NewFp(PNone), g |-> FlatEmpty]
 
 (* what the open graph perspective must show (abstract layer) *)
@@ -239,9 +243,15 @@ RevertStep(p, cp) ==
                       ELSE SubSeq(p.cmds[cp.index + 1], 1, cp.pend)
        IN [p EXCEPT !.cmds = cm, !.cur = pending,
                     !.fp = FpApply(FpApplyCmds(NewFp(p.fp.prior), cm), pending)]   \* facts.clear(); replay
+RECURSIVE UpdatesOf(_)
+UpdatesOf(cmds) == IF cmds = <<>> THEN {} ELSE {cmds[1][u] : u \in 1..Len(cmds[1])} \cup UpdatesOf(Tail(cmds))
+Discarded(p, cp) ==
+  IF cp.index = Len(p.cmds) THEN {p.cur[u] : u \in (cp.pend + 1)..Len(p.cur)}
+  ELSE {p.cmds[cp.index + 1][u] : u \in (cp.pend + 1)..Len(p.cmds[cp.index + 1])}
+       \cup UpdatesOf(SubSeq(p.cmds, cp.index + 2, Len(p.cmds))) \cup {p.cur[u] : u \in 1..Len(p.cur)}
 Revert(j) ==
   /\ per.open /\ j \in 1..Len(cps)
-  /\ per' = RevertStep(per, cps[j])
+  /\ per' = [RevertStep(per, cps[j]) EXCEPT !.disc = per.disc \cup Discarded(per, cps[j])]
   /\ cps' = SubSeq(cps, 1, j)
   /\ UNCHANGED <<idx, segs, fper>>
   /\ Log(Rec("revert", NoX, 0, 0, 0, j, "ok",
@@ -256,7 +266,7 @@ Create ==
           /\ per' = Closed /\ cps' = <<>> /\ UNCHANGED fper
           /\ Log(Rec("create", NoX, 0, 0, 0, 0, "err", Obs(Closed, fper)))     \* EmptyPerspective
      ELSE /\ idx' = <<[prior |-> 0, depth |-> 1, m |-> per.fp.m]>>
-          /\ segs' = <<[prior |-> NoLoc, cmds |-> per.cmds, facts |-> 1, pf |-> 0]>>
+          /\ segs' = <<[prior |-> NoLoc, cmds |-> per.cmds, facts |-> 1, pf |-> 0, disc |-> per.disc]>>
           /\ per' = Closed /\ cps' = <<>> /\ UNCHANGED fper
           /\ Log(Rec("create", NoX, 0, 1, Len(per.cmds), 0, "ok",
                      [Obs(Closed, fper) EXCEPT !.sf = FlatSeq(FApplyCmds(FlatEmpty, per.cmds))]))
@@ -269,7 +279,8 @@ Write ==
      /\ IF per.cmds = <<>>
         THEN /\ UNCHANGED segs
              /\ Log(Rec("write", NoX, 0, 0, 0, 0, "err", Obs(Closed, fper)))  \* EmptyPerspective
-        ELSE /\ segs' = Append(segs, [prior |-> per.parent, cmds |-> per.cmds, facts |-> w.id, pf |-> w.pf])
+        ELSE /\ segs' = Append(segs, [prior |-> per.parent, cmds |-> per.cmds, facts |-> w.id, pf |-> w.pf,
+                                                  disc |-> per.disc])
              /\ Log(Rec("write", NoX, 0, Len(segs) + 1, Len(per.cmds), 0, "ok",
                         [Obs(Closed, fper) EXCEPT !.sf = FlatSeq(FApplyCmds(FlatAt(per.parent), per.cmds))]))
   /\ per' = Closed /\ cps' = <<>> /\ UNCHANGED fper
@@ -277,7 +288,8 @@ Write ==
 (* Storage::get_linear_perspective(location) (a still open perspective is dropped) *)
 Open(s, i) ==
   /\ s \in 1..Len(segs) /\ i \in 1..Len(segs[s].cmds)
-  /\ per' = [open |-> TRUE, parent |-> <<s, i>>, fp |-> NewFp(PriorAt(s, i)), cmds |-> <<>>, cur |-> <<>>]
+  /\ per' = [open |-> TRUE, parent |-> <<s, i>>, fp |-> NewFp(PriorAt(s, i)), cmds |-> <<>>, cur |-> <<>>,
+             disc |-> {}]
   /\ cps' = <<>>
   /\ UNCHANGED <<idx, segs, fper>>
   /\ Log(Rec("open", NoX, 0, s, i, 0, "ok", Obs(per', fper)))
